@@ -229,6 +229,18 @@ pub fn run(tier: Tier) -> Report {
     let mut size_jump: Vec<usize> = vec![];
     let maxes: Vec<usize> = tier.pick(vec![1, 2, 3, 4], vec![1, 2, 3, 4, 5, 8]);
     let hists: Vec<usize> = tier.pick(vec![1, 3], vec![1, 2, 4, 10]);
+    // the positional trackers first: cheap, and a wall cap must never skip them
+    for &h in &hists {
+        for kind in [Kind::Sort, Kind::BatchSort] {
+            for pos in [Pos::Iou(0.3), Pos::Maha] {
+                let mut c = TrkCfg::new(kind);
+                c.history = h;
+                c.max_idle = 1;
+                c.pos = pos;
+                cfgs.push(c);
+            }
+        }
+    }
     for &m in &maxes {
         for &h in &hists {
             for kind in [Kind::VisualSort, Kind::BatchVisualSort] {
@@ -280,17 +292,6 @@ pub fn run(tier: Tier) -> Report {
         c.vis.min_area = min_area;
         size_jump.push(cfgs.len());
         cfgs.push(c);
-    }
-    for &h in &hists {
-        for kind in [Kind::Sort, Kind::BatchSort] {
-            for pos in [Pos::Iou(0.3), Pos::Maha] {
-                let mut c = TrkCfg::new(kind);
-                c.history = h;
-                c.max_idle = 1;
-                c.pos = pos;
-                cfgs.push(c);
-            }
-        }
     }
     let mut total_w = 0u64;
     let mut total_s = 0u64;
